@@ -33,6 +33,7 @@ func genIdPKnobs(r *Rng) IdPKnobs {
 	k.AudArray = r.Chance(0.3)
 	k.TokenType = []string{"Bearer", "bearer", "BEARER", "bEaReR"}[r.Intn(4)]
 	k.Extra = r.Chance(0.3)
+	k.Big = r.Chance(0.1)
 	k.Alg = "ES256"
 	if r.Chance(0.15) {
 		k.Alg = "RS256"
@@ -55,6 +56,9 @@ func genFilter(r *Rng, i int, o genOpts) FilterSpec {
 	}
 	if r.Chance(0.2) {
 		f.ClientSecret = "s3cr3t/+ %&=" + r.Str(8) + letter
+	} else if r.Chance(0.2) {
+		// bytes whose standard base64 uses '+' and '/' at every alignment
+		f.ClientSecret = "p?ssw~rd>1!" + ">?~" + r.Str(1) + ">?~" + r.Str(2) + ">?~" + letter
 	}
 	if r.Chance(0.3) {
 		f.CallbackPort = "443"
@@ -126,7 +130,8 @@ func genSpec(r *Rng, o genOpts) *WorldSpec {
 		ws.TriggerRules = genTriggerRules(r)
 	}
 	ws.LogLevel = []string{"", "", "error", "debug"}[r.Intn(4)]
-	if o.Filters == 1 && r.Chance(0.25) {
+	if o.Filters == 1 && r.Chance(0.25) || o.Filters > 1 && r.Chance(0.4) {
+		// (several filters: default_oidc_config holds what they have in common, each chain overrides the rest)
 		ws.UseOverride = true
 	}
 	return ws
@@ -155,7 +160,8 @@ func isPublicPath(pc string) bool {
 	return strings.HasPrefix(pc, "/static/") || strings.HasSuffix(pc, ".css") || strings.HasSuffix(pc, ".js") || strings.HasSuffix(pc, ".png")
 }
 
-var pathSegs = []string{"app", "x", "api", "v1", "users", "admin", "a%20b", "caf%C3%A9", "i-._~d", "k;v=1", "q@r:s", "$!*'(),", "%2Fenc", "index.html"}
+var pathSegs = []string{"app", "x", "api", "v1", "users", "admin", "a%20b", "caf%C3%A9", "i-._~d", "k;v=1", "q@r:s", "$!*'(),", "%2Fenc", "index.html",
+	"docs", "", ".", "..", "v2"} // (empty and dot segments: a path is restored as it was sent, not as a cleaner would write it)
 var queryKeys = []string{"a", "q", "next", "redirect", "x[]", "k.e-y", "utm_source"}
 var queryVals = []string{"1", "", "a%20b", "a+b", "https%3A%2F%2Fevil.test%2F", "%3Fq%3D1%26r%3D2", "x=y", "caf%C3%A9", ".css", "v;w", "/static/x.png", "~", "100%25"}
 
